@@ -20,7 +20,7 @@ class Book:
     def __init__(self, n, full):
         self.n, self.full = n, full
         self.pending, self.live = [], {}
-        self.unread = set()
+        self.unread = []          # multiset: client ids with a complete unread request in the socket
         self.partial = set()
         self.nclients = 0
         self.revoked = False
@@ -39,7 +39,7 @@ class Book:
                 for k in list(self.live):
                     if self.live[k] == "I":
                         if k in self.unread and self.served_ok(k):
-                            self.unread.discard(k)
+                            self.unread.remove(k)
                             self.live[k] = "H"
                             changed = True
 
@@ -54,7 +54,7 @@ class Book:
             return k
         self.pending.append(k)
         if self.full:
-            self.unread.add(k)
+            self.unread.append(k)
         self.settle()
         return k
 
@@ -72,9 +72,9 @@ class Book:
             self.closed.add(k)
         self.settle()
 
-    def request(self, k):
+    def request(self, k, j=1):
         self.partial.discard(k)
-        self.unread.add(k)
+        self.unread += [k] * j
         self.settle()
 
     def revoke(self):
@@ -130,6 +130,8 @@ def valid(case):
                 if k in b.handlers():
                     if kind not in HANDLER_KINDS:
                         return False
+                    if k in b.unread and kind not in ("err500", "panic", "drop"):
+                        return False   # a buffered follower would be served after a client-side ending
                 elif k in b.idle():
                     if kind not in IDLE_KINDS:
                         return False
@@ -150,6 +152,13 @@ def valid(case):
             if k not in b.live:
                 return False
             b.request(k)
+        elif c[0] == "b":
+            k = int(c[1:].split(":")[0]); j = int((c.split(":") + ["2"])[1])
+            if not full or k not in b.live or j < 1:
+                return False
+            if not (k in b.idle() or k in b.partial or k in b.handlers()):
+                return False
+            b.request(k, j)
         elif c[0] in "pu":
             k = int(c[1:])
             if not full or k not in b.idle():
@@ -188,6 +197,8 @@ def classify(case, model):
         feats.append("accept-error")
     if any(c[0] in "pu" for c in t[2:]):
         feats.append("partial")
+    if any(c[0] == "b" for c in t[2:]):
+        feats.append("pipelined-burst")
     return "%s:n=%s:%s%s" % (t[0], t[1], ",".join(feats) or "-", (":" + "+".join(kinds)) if kinds else "")
 
 
